@@ -26,14 +26,16 @@ C_NEW_CLAUSE = Contract(requires=['sp_lits_ok(self->assigns, lits, XT_MAXLITS) &
                         ensures=[('post', 'sp_new_clause_post(%s, self->assigns, lits, %s, xt_ncl, %s, xt_sigma)' % (OLD('self->assigns'), OLD('xt_ncl'), R))],
                         assigns='xt_ncl, xt_cl[xt_ncl], self->assigns')
 LOGC = 'sg_sat_log(xt_sigma, %s, xt_ncl)' % OLD('xt_ncl')
-C_EXO = Contract(requires=['sp_lits_ok(self->assigns, ls, XT_MAXLITS) && xt_ncl + 4 <= XT_MAXCL && self->assigns.n < XT_MAXV'],
+C_EXO = Contract(requires=['sp_lits_ok(self->assigns, ls, XT_MAXLITS) && xt_ncl + 5 <= XT_MAXCL && self->assigns.n + 1 < XT_MAXV'],
                  ensures=[('result_in_range', 'sp_var(%s) < self->assigns.n' % R),
                           ('forces_constraint', '!(sg_ext(xt_sigma, self->assigns) && %s && sg_lit(xt_sigma, %s)) || sg_count(xt_sigma, ls) == 1' % (LOGC, R)),
                           ('root_assignment_unchanged', 'sp_assigns_grown(%s, self->assigns)' % OLD('self->assigns')),
-                          ('at_most_one_new_variable', 'self->assigns.n <= %s + 1' % OLD('self->assigns.n')),
-                          ('creates_variable_when_open', '!(sp_open_count(%s, ls) >= 2 && !sp_any_root_true(%s, ls)) || self->assigns.n == %s + 1' % (OLD('self->assigns'), OLD('self->assigns'), OLD('self->assigns.n'))),
-                          ('result_is_the_new_variable', 'self->assigns.n == %s || %s.x == sp_mk_lit(%s, 1).x' % (OLD('self->assigns.n'), R, OLD('self->assigns.n'))),
-                          ('log_bounded', 'xt_ncl >= %s && xt_ncl <= %s + 4' % (OLD('xt_ncl'), OLD('xt_ncl')))],
+                          # as proved in contracts/c13.py (exo_contract): the exactly-one literal is a variable of its own, created after
+                          # the at-most-one's, so up to two variables are new and the result is the last of them
+                          ('at_most_two_new_variables', 'self->assigns.n <= %s + 2' % OLD('self->assigns.n')),
+                          ('creates_its_own_variable_when_open', '!(sp_open_count(%s, ls) >= 2 && !sp_any_root_true(%s, ls)) || self->assigns.n == %s + 2' % (OLD('self->assigns'), OLD('self->assigns'), OLD('self->assigns.n'))),
+                          ('result_is_the_last_new_variable', 'self->assigns.n == %s || %s.x == sp_mk_lit(self->assigns.n - 1, 1).x' % (OLD('self->assigns.n'), R)),
+                          ('log_bounded', 'xt_ncl >= %s && xt_ncl <= %s + 5' % (OLD('xt_ncl'), OLD('xt_ncl')))],
                  assigns='xt_ncl, __CPROVER_object_whole(xt_cl), self->assigns')
 C_BIND = Contract(requires=['1'], ensures=['1'], assigns='')
 # meaning contracts of the other reified constructs of sat_core, used only if the code under proof calls them
@@ -76,7 +78,7 @@ def jobs(tier):
         replace = list(replace) + ([SAT_EQ, SAT_CONJ, SAT_DISJ] if replace else [])
         out.append(Job('ov.' + name, target, tus=TUS, contract=contract, defines=d, unwind=unwind, model_unwind=13, spec_headers=SPEC,
                        callee_contracts={k: cc[k] for k in replace}, replace=list(replace), exceptions=True, caps=caps, abstract_fields=ABS,
-                       harness_pre=HPRE, force_types=FORCE, timeout=2400, mem_gb=24, solver='cadical',
+                       harness_pre=HPRE, force_types=FORCE, timeout=2400, mem_gb=24, mem_est=4, solver='cadical',
                        bounded='domains of <= %d values, <= 2 existing object variables, <= 4 existing propositional variables with symbolic root values' % DOM, **kw))
 
     A0 = OLD(SAT + '->assigns')
